@@ -17,6 +17,10 @@ import (
 // and fork replacements, with reader steps in between. In the plain sub-class no goroutines are
 // involved; in the cooperative sub-class (c20coop.go) some reader steps run on a goroutine of their own
 // that is interleaved with the writer driver at the atomic operations of chain_storage.go.
+//
+// Class definitions: with every update the driver attaches what the poller would (definitions of classes
+// the targeted block declares: all, none or a part), so that slots carry registered definitions when a
+// same-round re-poll or a NEW round replaces them; what then resolves through a view is classReads' subject.
 func c20Direct(c *sim.Ctx) {
 	t := c.T
 	cfg := config{gomaxprocs: 0, newState: t.Draw("newstate", 2) == 1, maxChain: 12, maxReorgs: 0}
@@ -73,10 +77,15 @@ func c20Direct(c *sim.Ctx) {
 		w.local = append(w.local, stored{b: b})
 		co.headMoved(head())
 	}
-	classesOf := func(r *pcRound, upto int) map[felt.Felt]core.ClassDefinition {
+	// pickDefs: the definitions a caller of ApplyUpdate attaches for the declared class hashes hs (sorted).
+	// ApplyUpdate's contract is that newClasses holds definitions of classes the targeted block declares (the
+	// poller passes what fetchDeclaredClasses returns), so nothing else is ever attached. mode 0: all of
+	// them, 1: none, 2: those at even positions, 3: those at odd positions (a later registration completes
+	// an earlier partial one).
+	pickDefs := func(hs []felt.Felt, mode int) map[felt.Felt]core.ClassDefinition {
 		out := map[felt.Felt]core.ClassDefinition{}
-		for _, x := range r.txs[:upto] {
-			for h := range x.diff.DeclaredV1Classes {
+		for i, h := range hs {
+			if mode == 0 || (mode == 2 && i%2 == 0) || (mode == 3 && i%2 == 1) {
 				out[h] = m.classes[h]
 			}
 		}
@@ -84,6 +93,15 @@ func c20Direct(c *sim.Ctx) {
 			return nil
 		}
 		return out
+	}
+	classesOf := func(r *pcRound, upto int, mode int) map[felt.Felt]core.ClassDefinition {
+		decl := map[felt.Felt]bool{}
+		for _, x := range r.txs[:upto] {
+			for h := range x.diff.DeclaredV1Classes {
+				decl[h] = true
+			}
+		}
+		return pickDefs(refstate.SortedFelts(decl), mode)
 	}
 	baseState := func() *refstate.State { return w.localTip().Post }
 	ensureRound := func(n uint64) *pcRound {
@@ -103,6 +121,7 @@ func c20Direct(c *sim.Ctx) {
 		case aff == nil:
 			w.logf("direct: ApplyUpdate(%s, block %d, txc %d, oldest %d, %d classes): no-op", what, n, txc, oldest, len(cls))
 		default:
+			p.noteRegistered(aff)
 			w.logf("direct: ApplyUpdate(%s, block %d, txc %d, oldest %d, %d classes): slot %d round %s now %d txs, %d classes",
 				what, n, txc, oldest, len(cls), aff.Block.Number, aff.BlockIdentifier, len(aff.Block.Transactions), len(aff.NewClasses))
 		}
@@ -203,10 +222,7 @@ func c20Direct(c *sim.Ctx) {
 			if k > 0 && t.Draw("d.prefix", 3) == 0 {
 				k = t.Draw("d.prefix.n", k+1)
 			}
-			var cls map[felt.Felt]core.ClassDefinition
-			if t.Draw("d.cls", 2) == 0 {
-				cls = classesOf(r, k)
-			}
+			cls := classesOf(r, k, t.Draw("d.cls", 3))
 			apply("full "+r.ident, r.prefix(k), n, uint64(t.Draw("d.txc", 3)), oldest, cls)
 		})
 		if has {
@@ -226,7 +242,7 @@ func c20Direct(c *sim.Ctx) {
 				if len(r.txs) <= have {
 					st := m.stateThrough(baseState(), n)
 					for i := 0; i < 1+t.Draw("d.delta.n", 2); i++ {
-						r.txs = append(r.txs, m.genTx(st))
+						m.extend(r, st)
 					}
 				}
 				if have > len(r.txs) {
@@ -236,10 +252,7 @@ func c20Direct(c *sim.Ctx) {
 				if t.Draw("d.delta.badtxc", 8) == 0 {
 					txc++
 				}
-				var cls map[felt.Felt]core.ClassDefinition
-				if t.Draw("d.cls", 2) == 0 {
-					cls = classesOf(r, len(r.txs))
-				}
+				cls := classesOf(r, len(r.txs), t.Draw("d.cls", 3))
 				c.Fault("pc_delta")
 				apply("delta "+r.ident, r.delta(have), n, txc, uint64(head()+1), cls)
 			})
@@ -248,15 +261,12 @@ func c20Direct(c *sim.Ctx) {
 				if t.Draw("d.nc.nontip", 8) == 0 && hi > lo {
 					n = uint64(lo)
 				}
+				// what the poller attaches to a no-change: the definitions of the classes the STORED entry of
+				// that slot declares (all of them, or the part an earlier registration left out)
 				var cls map[felt.Felt]core.ClassDefinition
-				if r := m.rounds[n]; r != nil && t.Draw("d.nc.cls", 3) != 0 {
-					cls = classesOf(r, len(r.txs))
-					if t.Draw("d.nc.extra", 2) == 0 {
-						h, _ := m.newClass()
-						if cls == nil {
-							cls = map[felt.Felt]core.ClassDefinition{}
-						}
-						cls[h] = m.classes[h]
+				if mode := t.Draw("d.nc.cls", 3); mode != 0 {
+					if es := collect(ptr(stg.SnapshotForBlock(n))); len(es) > 0 && es[0].StateUpdate != nil && es[0].StateUpdate.StateDiff != nil {
+						cls = pickDefs(refstate.SortedFelts(es[0].StateUpdate.StateDiff.DeclaredV1Classes), map[int]int{1: 0, 2: 3}[mode])
 					}
 				}
 				apply("no-change", starknet.PreConfirmedNoChange{}, n, 0, uint64(head()+1), cls)
